@@ -1385,13 +1385,11 @@ private:
           }
           else if (isPlausibleEpochMs(expiryMs))
           {
-            const auto exp = fromEpochMs(expiryMs);
-            if (exp > now)
-            {
-              _kv[key] = std::move(value);
-              _expiry[key] = ExpiryEntry{exp, core::InvalidTimerId};
-            }
-            // else: already expired at load — drop the entry entirely.
+            // Keep the entry with its expiry even if that expiry has already
+            // passed: a later 'X' record in the log may persist()/extend the key.
+            // Entries still expired after the whole replay are dropped below.
+            _kv[key] = std::move(value);
+            _expiry[key] = ExpiryEntry{fromEpochMs(expiryMs), core::InvalidTimerId};
           }
           // else: implausible (corrupt) expiry — drop the entry, mirroring the
           // 'E' log op's sanity-bound rejection (KTP-11). NOT kept as eternal.
@@ -1407,7 +1405,10 @@ private:
     // Load log with enhanced error handling and corruption detection
     std::ifstream log(_logPath, std::ios::binary);
     if (!log.is_open())
+    {
+      dropExpiredAfterLoad(now);
       return; // No log file yet
+    }
 
     while (log.peek() != EOF)
     {
@@ -1511,17 +1512,10 @@ private:
         }
         std::vector<std::uint8_t> value(valLen);
         std::memcpy(value.data(), ptr, valLen);
-        const auto exp = fromEpochMs(expiryMs);
-        if (exp > now)
-        {
-          _kv[key] = std::move(value);
-          _expiry[key] = ExpiryEntry{exp, core::InvalidTimerId};
-        }
-        else
-        {
-          _kv.erase(key); // already expired → drop
-          _expiry.erase(key);
-        }
+        // Whether the key is expired is decided after the whole replay (a later
+        // 'X' record may persist()/extend it), see dropExpiredAfterLoad().
+        _kv[key] = std::move(value);
+        _expiry[key] = ExpiryEntry{fromEpochMs(expiryMs), core::InvalidTimerId};
       }
       else if (op == 'X')
       {
@@ -1541,16 +1535,7 @@ private:
         }
         else if (isPlausibleEpochMs(expiryMs))
         {
-          const auto exp = fromEpochMs(expiryMs);
-          if (exp > now)
-          {
-            _expiry[key] = ExpiryEntry{exp, core::InvalidTimerId};
-          }
-          else
-          {
-            _kv.erase(key); // expiry already past → drop the key
-            _expiry.erase(key);
-          }
+          _expiry[key] = ExpiryEntry{fromEpochMs(expiryMs), core::InvalidTimerId};
         }
         // implausible expiry → ignore
       }
@@ -1558,6 +1543,28 @@ private:
       {
         _kv.erase(key);
         _expiry.erase(key);
+      }
+    }
+
+    dropExpiredAfterLoad(now);
+  }
+
+  /// \brief Drop every key whose FINAL replayed expiry has passed. Done once after
+  /// snapshot + log replay rather than record by record, so that a key whose
+  /// original expiry has passed but which was later persist()ed or extended
+  /// (a later 'X' record) is not lost on restart.
+  void dropExpiredAfterLoad(std::chrono::system_clock::time_point now)
+  {
+    for (auto it = _expiry.begin(); it != _expiry.end();)
+    {
+      if (it->second.expiry <= now)
+      {
+        _kv.erase(it->first);
+        it = _expiry.erase(it);
+      }
+      else
+      {
+        ++it;
       }
     }
   }
